@@ -31,13 +31,14 @@ A1 == CHOOSE a \in Addrs : TRUE
 
 \* projection of the post-state -----------------------------------------------
 SrvAlive == [s \in 1..(nextSid' - 1) |-> s \in DOMAIN srv'[A1] /\ now' <= srv'[A1][s].exp]
+SrvPresent == [s \in 1..(nextSid' - 1) |-> s \in DOMAIN srv'[A1]]
 CliLook  == [s \in 1..(nextSid' - 1) |-> CliAliveOf(cli', now', s)]
 Routes   == [i \in 1..Len(TripleSeq) |->
                RouteOf(cli', now', TripleSeq[i][1], TripleSeq[i][2], TripleSeq[i][3])]
 Allowed  == [i \in 1..Len(TripleSeq) |->
                IF TripleSeq[i] \in DOMAIN mayReuse' THEN mayReuse'[TripleSeq[i]] ELSE NoSid]
 
-Log06 == hist' = Append(hist, [step |-> last', now |-> now', alive |-> SrvAlive, recs |-> recs'])
+Log06 == hist' = Append(hist, [step |-> last', now |-> now', alive |-> SrvAlive, present |-> SrvPresent, recs |-> recs'])
 Log07 == hist' = Append(hist, [step |-> last', look |-> CliLook, routes |-> Routes, allowed |-> Allowed,
                                gone |-> gone', brk |-> brk'])
 
@@ -88,5 +89,5 @@ GenView == <<core, last, prev, used, phase>>
 GenView06 == <<core, last, phase>>
 
 Done == IF GenMode = "C06" THEN phase = "done" ELSE Len(hist) >= 1
-EmitTrace == Done => PrintT(ToJson([trace |-> hist]))
+EmitTrace == Done => PrintT(ToJson([trace |-> [h |-> hist, triples |-> TripleSeq]]))
 =============================================================================
